@@ -44,6 +44,22 @@ fn mkroute(spec: &str) -> Choice {
     }
 }
 pub const NROUTES: usize = 16;
+#[repr(C, align(64))]
+struct Aligned([u8; 128]);
+#[repr(C, align(32))]
+struct TagRec<const K: usize> {
+    hdr: [u8; K],
+    tag: Tag,
+}
+trait TagHolder {
+    fn tag(&self) -> &Tag;
+}
+impl<const K: usize> TagHolder for TagRec<K> {
+    fn tag(&self) -> &Tag {
+        assert!(self.hdr.iter().all(|b| *b == 0));
+        &self.tag
+    }
+}
 fn u64s(v: &[u8]) -> Vec<u64> {
     v.chunks(8).map(|c| u64::from_le_bytes(<[u8; 8]>::try_from(c).unwrap())).collect()
 }
@@ -161,6 +177,50 @@ pub fn run(op: &str, a: &[&str]) -> Vec<String> {
                 }};
             }
             with_n!(x.len(), f)
+        }
+        // ct_arr_at <a> <b> <offa> <offb> : as ct_arr with the two arrays stored offa / offb bytes into 64-byte aligned buffers
+        "ct_arr_at" => {
+            let (x, y) = (expand(a[0]), expand(a[1]));
+            let (oa, ob) = (usz(a[2]), usz(a[3]));
+            assert_eq!(x.len(), y.len());
+            let (mut bx, mut by) = (Box::new(Aligned([0x5a; 128])), Box::new(Aligned([0xa5; 128])));
+            bx.0[oa..oa + x.len()].copy_from_slice(&x);
+            by.0[ob..ob + y.len()].copy_from_slice(&y);
+            assert_eq!(bx.0.as_ptr() as usize % 64, 0);
+            macro_rules! f {
+                ($n:literal) => {{
+                    let xa = <&[u8; $n]>::try_from(&bx.0[oa..oa + $n]).unwrap();
+                    let ya = <&[u8; $n]>::try_from(&by.0[ob..ob + $n]).unwrap();
+                    vec![
+                        ch(xa.ct_zero()),
+                        ch(xa.ct_nonzero()),
+                        ch(xa.ct_eq(ya)),
+                        ch(xa.ct_ne(ya)),
+                        ch(<&[u8; $n]>::ct_lt(xa, ya)),
+                        ch(<&[u8; $n]>::ct_ge(xa, ya)),
+                    ]
+                }};
+            }
+            with_n!(x.len(), f)
+        }
+        // tag_eq_at <a> <b> <offa> <offb> : Tag comparison with the two tags stored at the given offsets of aligned buffers
+        "tag_eq_at" => {
+            let (x, y) = (expand(a[0]), expand(a[1]));
+            let (oa, ob) = (usz(a[2]), usz(a[3]));
+            let tx = Tag(<[u8; 16]>::try_from(&x[..]).expect("TYPE"));
+            let ty = Tag(<[u8; 16]>::try_from(&y[..]).expect("TYPE"));
+            macro_rules! at {
+                ($($k:literal)*) => {{
+                    let bx: Box<dyn TagHolder> = match oa { $($k => Box::new(TagRec::<$k> { hdr: [0; $k], tag: tx }),)* _ => panic!("HARNESS: offset") };
+                    let by: Box<dyn TagHolder> = match ob { $($k => Box::new(TagRec::<$k> { hdr: [0; $k], tag: ty }),)* _ => panic!("HARNESS: offset") };
+                    (bx, by)
+                }};
+            }
+            let (bx, by) = at!(0 1 2 3 4 5 6 7 8 9 10 11 12 13 14 15);
+            let (x, y) = (bx.tag(), by.tag());
+            assert_eq!(x as *const Tag as usize % 32, oa);
+            assert_eq!(y as *const Tag as usize % 32, ob);
+            vec![tf(x == y), tf(y == x), ch(x.ct_eq(y)), ch(x.ct_ne(y))]
         }
         // ct_slice <a> <b> -> eq ne  (panics when lengths differ)
         "ct_slice" => {
